@@ -64,6 +64,18 @@ def run_unit(A, unit, rep, tier):
                 entry_func = eps[m]
                 if rho == "root":
                     bad = [n for n in bad if not is_total_overwrite(n, entry_func)]
+                # C04.c: what a mutator reads from the cached data to compute its change is read after the load
+                reads = [n for n in live(g) if n.kind == "data_read" and n["owner"].args[2] == "T" and n.id in reach and not n.in_extent("_load") and not n.in_extent("_load_from_buffer")
+                         and not n.in_extent("_save")]  # serialising the data in order to save it is not computing a change from it
+                if rho == "root":
+                    reads = [n for n in reads if not is_total_overwrite(n, entry_func)]
+                if not reads:
+                    rep.ok("C04.c", f"C04.c {g.label}: the cached data is only read after the load")
+                else:
+                    n = reads[0]
+                    rep.fail("C04.c", norm_key("C04.c", entry_func.qualname, f"rho={rho}"),
+                             f"{entry_func.qualname} reads the cached data (`{n.stmt}` in {n.func}) before loading the backend's current content and then writes a result computed from it: "
+                             "changes made through other handles are reverted", g.witness(g.path(g.entry, [n.id], avoid=L)), g.label)
                 descr = f"C04.a {g.label}: every path to a mutation of _data passes a completed load of the root"
                 if not bad:
                     rep.ok("C04.a", descr)
